@@ -87,6 +87,9 @@ func applyEdit(s *ref.LStream, xs ref.XZStream, edit string, bi int) (ok bool) {
 		s.Backward ^= 1 << 31
 	case "countHigh":
 		s.Count += 1 << 32
+	case "countWrap":
+		s.Wrap = map[string]bool{"count": true}
+		s.FixIndex()
 	case "fflag0":
 		s.FtrFlag0 = 1
 	case "fcheck":
@@ -250,6 +253,16 @@ func applyEdit(s *ref.LStream, xs ref.XZStream, edit string, bi int) (ok bool) {
 				return false
 			}
 			*f += 1 << 32
+			b.FixHdrPad()
+			reindex(i)
+		case "recUnpaddedWrap", "recUsizeWrap":
+			s.Wrap = map[string]bool{fmt.Sprint(map[bool]string{true: "unpadded:", false: "usize:"}[edit == "recUnpaddedWrap"], i): true}
+			s.FixIndex()
+		case "csizeFWrap", "usizeFWrap", "filterIdWrap", "propLenWrap":
+			if (edit == "csizeFWrap" && !b.HasC) || (edit == "usizeFWrap" && !b.HasU) {
+				return false
+			}
+			b.Wrap = map[string]bool{map[string]string{"csizeFWrap": "csize", "usizeFWrap": "usize", "filterIdWrap": "filter", "propLenWrap": "proplen"}[edit]: true}
 			b.FixHdrPad()
 			reindex(i)
 		case "recSwap":
